@@ -256,6 +256,18 @@ func (h *hs13fDriver) absorb() []string {
 	return out
 }
 
+// hsReturned: the peer's Handshake call has returned (with or without an error).
+func hsReturned(p *labPeer) bool {
+	select {
+	case <-p.hsDone:
+		return true
+	default:
+		return false
+	}
+}
+
+func hsFailed(p *labPeer) bool { return hsReturned(p) && p.hsErr != nil }
+
 func hs13fNames(q []hs13fTok) []string {
 	out := make([]string, len(q))
 	for i, t := range q {
@@ -311,6 +323,7 @@ func runHs13FScript(idx int, sc *hs13fScript) hsResult { //nolint:cyclop,gocogni
 			res.Law = append(res.Law, fmt.Sprintf(f, a...))
 		}
 	}
+	silentRounds := 0
 	serverFirst := true // the server's first transmission of its flight has not happened yet
 	for i, st := range sc.Steps {
 		_, cflB, cestB, _, cretxB := legacy.peerState(r.c)
@@ -504,6 +517,7 @@ func runHs13FScript(idx int, sc *hs13fScript) hsResult { //nolint:cyclop,gocogni
 	}
 flush:
 	res.Rounds = len(sc.Steps)
+	silentRounds = 0
 	// C02: the network turns reliable (in order, nothing lost), timers keep firing: both must complete
 	for round := 0; round < 200; round++ {
 		if estOf(r.c) && estOf(r.s) {
@@ -532,6 +546,7 @@ flush:
 		}
 		if !moved {
 			fired := false
+			emB := h.emitted["c"] + h.emitted["s"]
 			for _, p := range []*labPeer{r.c, r.s} {
 				if !estOf(p) && p.fire() {
 					fired = true
@@ -544,6 +559,21 @@ flush:
 				break
 			}
 			h.absorb()
+			// C17 timer law in total silence: as long as the handshake is incomplete on a side and nobody gave up, somebody
+			// awaits a reply, and its timer re-sends its flight
+			if h.emitted["c"]+h.emitted["s"] == emB && (!hsReturned(r.c) || !hsReturned(r.s)) && !hsFailed(r.c) && !hsFailed(r.s) && len(h.q["s2c"])+len(h.q["c2s"]) == 0 {
+				silentRounds++
+				if silentRounds >= 3 {
+					_, cfl, _, _, _ := legacy.peerState(r.c)
+					_, sfl, _, _, _ := legacy.peerState(r.s)
+					law("C17 timer law: nothing in flight, a handshake call is still pending and none has failed (client in %s, server in %s) and %d successive "+
+						"time-outs of the waiting endpoints re-sent nothing", cfl, sfl, silentRounds)
+
+					break
+				}
+			} else {
+				silentRounds = 0
+			}
 		}
 	}
 	res.Completed = estOf(r.c) && estOf(r.s)
